@@ -34,6 +34,9 @@ ASSUMPTIONS = [
     "objects in the destination are byte-identical to the copies status() reads from cache_odb/source (C12's "
     "hypothesis: 'directory present => contents present'); other rounds are counted under excluded:*",
     "directory listings are flat",
+    "status sets are those the validate_status callback received in the round; a round that returns a result "
+    "without calling it is judged with missing = new = {}",
+    "40% of the destinations carry a real hash State (sqlite); verify is constant across the rounds of a scenario",
     "no-re-send, absent=>reported and status.new are judged when cache_odb (if given) holds the same bytes as the source for every "
     "requested directory id; when they disagree (one copy corrupt) and shallow=False, compare_status expands two "
     "different listings and a file listed only by the source's copy is re-sent although present (counted under "
@@ -88,11 +91,16 @@ def run(ctx):
         fsets = TC.fail_sets(ctx.rng, uploads, shared, 4 if ctx.tier == "thorough" else 0, 5)
         if len(fsets) > per_base:
             fsets = ctx.rng.sample(fsets, per_base)
-        fsets = [[]] + fsets if (not fsets or ctx.rng.random() < 0.3) else fsets
+        fsets = [[]] + fsets if (not fsets or "ghost-id" in notes or ctx.rng.random() < 0.3) else fsets
         for F in fsets:
             case = copy.deepcopy(base)
             case["dst_cls"] = ctx.rng.choice(["local", "base"])
             case["dix"] = ctx.rng.random() < 0.4
+            if ctx.rng.random() < 0.4:
+                case["dst_state"] = True  # a real hash State on the destination, persisted across the rounds
+                ctx.count("dst-state")
+                if case["verify"] and any(n.startswith("src-corrupt") for n in notes):
+                    ctx.count("dst-state+verify+corrupt-source")
             if case["dix"] and ctx.rng.random() < 0.2:
                 case["dix"] = "noop"
             if not case["six"] and ctx.rng.random() < 0.06:
